@@ -9,6 +9,12 @@ Three values per case (operator tree, log_alg, trace_alg):
 code == spec is compared EXACTLY; real is compared with a relative tolerance (transcendental functions, LAPACK).
 Numerical-range stream: long Diagonal / ScalarMul / Triangular / Kronecker / BlockDiag trees whose determinant leaves the
 floating point range; there `logabs` and `sign` are compared with log|det| and det/|det| of the EXACT determinant.
+Round 5: (ix) a `known` outcome excuses ONE FACTOR only -- the tree is split into the factors of the structural rules
+(`rule_factors`, the walk of the dispatcher / `Op.slogdetAt`) and every factor is evaluated on its own with the options of the
+whole call; only factors whose base leaf meets the driver's clause predicate are excused, every other factor is compared;
+(viii) stream `singular`: det = 0 through every structural rule / LU / Cholesky against the IEEE outcome instance of the rule
+model (`Model/LogDetSing.lean`, theorems `Properties/C07/Singular.lean`); (i) stream `kernel-tie`: real Lanczos kernel with
+tol = 0, cap >= n / driver `trlogK` / theorem-side value of `Op.lanczosKernels` (`C07_lanczos_kernel_value`, hypotheses decided by the driver).
 """
 import collections
 import itertools
@@ -29,6 +35,7 @@ import oracle
 warnings.simplefilter("ignore")
 np.seterr(all="ignore")
 MODULE = "ColaVerif.Properties.C07"
+SUBMODULES = ["ColaVerif.Properties.C07.Singular"]   # round 5: singular inputs, Lanczos kernel value
 DRIVER = "DriverC07.lean"
 
 # defects found by this check and not yet decided (none at present)
@@ -463,7 +470,7 @@ def eig_well_conditioned(e, limit=1e3):
 
 
 # ------------------------------------------------------------------ real side
-def make_alg(name, n):
+def make_alg(name, n, tol=1e-12):
     from cola.linalg.algorithm_base import Auto
     from cola.linalg.decompositions.decompositions import LU, Arnoldi, Cholesky, Lanczos
     from cola.linalg.trace.diagonal_estimation import Exact
@@ -474,9 +481,9 @@ def make_alg(name, n):
     if name == "chol":
         return Cholesky()
     if name == "lanczos":
-        return Lanczos(max_iters=max(n, 2), tol=1e-12)
+        return Lanczos(max_iters=max(n, 2), tol=tol)
     if name == "arnoldi":
-        return Arnoldi(max_iters=max(n, 2), tol=1e-12)
+        return Arnoldi(max_iters=max(n, 2), tol=tol)
     if name == "exact":
         return Exact()
     raise ValueError(name)
@@ -499,16 +506,19 @@ def run_real(case):
     import cola
     try:
         A = build.Builder().build(case["op"])
-        n = int(A.shape[0])
+        # `cap`: the Krylov cap of the call (a factor evaluated on its own keeps the cap of the whole tree's call, so that it is
+        # the SAME computation as inside the tree; stream kernel-tie chooses it); `tol0`: the kernel with tol = 0
+        n = int(case.get("cap") or A.shape[0])
+        tol = 0.0 if case.get("tol0") else 1e-12
         kw = {}
         if case.get("la") is not None:
-            kw["log_alg"] = make_alg(case["la"], n)
+            kw["log_alg"] = make_alg(case["la"], n, tol)
         if case.get("ta") is not None:
             kw["trace_alg"] = make_alg(case["ta"], n)
         sign, logabs = cola.linalg.slogdet(A, **kw)
         kw2 = {}
         if case.get("la") is not None:
-            kw2["log_alg"] = make_alg(case["la"], n)
+            kw2["log_alg"] = make_alg(case["la"], n, tol)
         if case.get("ta") is not None:
             kw2["trace_alg"] = make_alg(case["ta"], n)
         ld = cola.linalg.logdet(A, **kw2)
@@ -687,6 +697,161 @@ def classify(case, ans, real):
     return "violation", f"sign * exp(logabs) = {v!r}, determinant = {z_spec!r}"
 
 
+
+# ------------------------------------------------------------------ round 5: factors, singular inputs, kernel tie
+def rule_factors(e, k=1, shape=None):
+    """the factors the structural rules of logdet.py split `slogdet(tree)` into -- the walk of the dispatcher, i.e. of the model's
+    `Op.slogdetAt`: declaration wrappers do not change the class; Product only if every member is square; Kronecker exponent
+    N / n_i; BlockDiag exponent = multiplicity.  -> [(sub-expression, exponent)] with det(tree) = prod det(sub) ** exponent; a
+    sub-expression is a structural leaf or an operator handed to a base rule (WITH its declaration wrappers: the base rule
+    reads the annotations)."""
+    shape = shape or (lambda x: tuple(int(t) for t in build.Builder().build(x).shape))
+    core = e
+    while core[0] == "ann":
+        core = core[2]
+    if core[0] == "prod":
+        ms = list(core[1:])
+        if all(shape(m)[0] == shape(m)[1] for m in ms):
+            return [f for m in ms for f in rule_factors(m, k, shape)]
+        return [(e, k)]
+    if core[0] == "kron":
+        ms = list(core[1:])
+        sizes = [shape(m)[1] for m in ms]
+        if any(sz == 0 for sz in sizes):
+            return [(e, k)]
+        N = math.prod(sizes)
+        return [f for m, sz in zip(ms, sizes) for f in rule_factors(m, k * (N // sz), shape)]
+    if core[0] == "bdiag":
+        return [f for m, mu in zip(core[1], core[2]) for f in rule_factors(m, k * int(mu), shape)]
+    return [(e, k)]
+
+
+def is_zero_spec(spec):
+    return spec is not None and fr(spec[0]) == 0 and fr(spec[1]) == 0
+
+
+def classify_singular(case, ans, real):
+    """stream `singular` (det = 0).  code = the IEEE outcome instance of the rule model (`ieee`: fin | sing = (nan, -inf) | junk, or the
+    exception the rules propagate) AND the exact `claimedDet`; spec = exact determinant (must be 0; `C07_singular_iff`: the model
+    answers `sing` iff det = 0 on structural trees, `C07_singular_outcome` on all); real: no exception, logabs == -inf, sign nan."""
+    if "error" in ans:
+        return "driver-error", ans["error"]
+    code, spec, ieee = ans["code"], ans["spec"], ans.get("ieee")
+    if spec is None or not ans.get("wf", False) or ieee is None:
+        return "driver-error", "singular stream: case outside the generator's contract"
+    if not is_zero_spec(spec):
+        return "driver-error", "singular stream: the generated tree is not singular"
+    if ("err" in code) != ("err" in ieee) or ("err" in code and code["err"] != ieee["err"]):
+        return "violation", f"the exact and the IEEE instance of the rule model disagree on the exception: {code} / {ieee} (C07_singular_same_errors)"
+    if "err" in ieee:
+        if "err" in real and (real["err"] == ieee["err"] or (ieee["err"] == "inexact-sqrt" and real["err"] in ("assert", "linalg-error"))):
+            return "domain", ieee["err"]
+        if "err" in real:
+            return "violation", f"raised {real['err']}: {real.get('msg', '')}; the model predicts {ieee['err']}"
+        return "stale-model", f"model predicts {ieee['err']}, real returned {real.get('sign')}, {real.get('logabs')}"
+    if code["ok"] != spec:
+        return "violation", "code model differs from the exact determinant on a singular tree"
+    if ieee["ok"] != "sing":
+        return "driver-error", f"singular stream: IEEE outcome {ieee['ok']} (generator keeps multiplicities and sizes positive)"
+    if "err" in real:
+        return "violation", f"raised {real['err']}: {real.get('msg', '')}; the rules answer (nan, -inf) on this singular operator"
+    s, la, ld = real["sign"], real["logabs"], real["logdet"]
+    if not (la == -math.inf):
+        return "violation", f"det = 0 but logabs = {la!r} (log|det| = -inf)"
+    if not (ld == -math.inf):
+        return "violation", f"det = 0 but logdet = {ld!r}"
+    if not (math.isnan(s[0]) or math.isnan(s[1])):
+        return "stale-model", f"singular operator: the rules give sign = 0/0 = nan, real returned sign = {s!r}"
+    return "ok", ""
+
+
+def classify_tie(case, ans, real):
+    """stream `kernel-tie`: real Lanczos kernel (tol = 0, cap >= n, exact trace; sign * exp(logabs) = exp(tr log A)) / driver `trlogK`
+    (`code`, exp of the trace) / theorem-side kernel `Op.lanczosKernels eigh cap 0`: by `C07_lanczos_kernel_value` it answers and
+    exp(answer) = det(den A) = `spec`, PROVIDED the hypotheses the driver decides on the case hold (`tie`)."""
+    if "error" in ans:
+        return "driver-error", ans["error"]
+    t = ans.get("tie") or {}
+    n = t.get("n", 0)
+    if not (t.get("square") and t.get("herm") and t.get("nonsing") and n >= 1 and int(case.get("cap") or 0) >= n and case.get("tol0")):
+        return "driver-error", f"kernel-tie: the hypotheses of C07_lanczos_kernel_value do not hold on the generated case ({t}, cap {case.get('cap')})"
+    if ans.get("base") != ["dense"] and len(ans.get("base") or []) != 1:
+        return "driver-error", "kernel-tie: the case is not a single base leaf"
+    return classify(case, ans, real)
+
+
+
+# ------------------------------------------------------------------ large-leaf stream (oracle only: no Lean driver behind it)
+LARGE_SIGN_TOL = 1e-6
+LARGE_LOGABS_TOL = 1e-6          # times n, absolute on logabs
+# stopping tolerance of the Krylov runs of this stream.  NOT 1e-12: when the Krylov space closes (step = number of distinct eigenvalues) the
+# residual norm of Arnoldi's single-pass Gram-Schmidt is ~1e-11 |A| at n ~ 100, ABOVE 1e-12 |h10|; the loop then does not see the closure,
+# runs on to max_iters with normalised rounding noise and the result is NaN (observed on the unchanged tree: 2 of 18 Arnoldi cases; the
+# floating-point `breakdown not detected` class recorded for C13 / C15).  1e-8 is far above that noise and far below the residual of a step
+# that has not closed (>= 1e-3 here), so the runs stop exactly at the grade.
+LARGE_KRYLOV_TOL = 1e-8
+
+
+def large_leaf_matrix(n, gen_seed, alg):
+    """A = Q diag(d) Q^T, Q orthogonal (QR of a seeded Gaussian matrix), d with 5-7 DISTINCT dyadic values in [1/4, 4], each with
+    multiplicity >= 6 (so every identity probe has the same small Krylov grade and the runs close after a few steps: no loss of
+    orthogonality, no batch-member breakdown), for Arnoldi 3-5 negative entries of one value.  log|det| = sum log|d| and
+    sign = (-1)^(number of negative entries) are known exactly (det(Q D Q^T) = det D)."""
+    g = np.random.default_rng(gen_seed)
+    Q, _ = np.linalg.qr(g.standard_normal((n, n)))
+    mags = [0.25, 0.375, 0.5, 0.75, 1.0, 1.5, 2.0, 3.0, 4.0]
+    m = int(g.integers(5, 8))
+    vals = [float(v) for v in g.choice(mags, size=m, replace=False)]
+    kneg = int(g.integers(3, 6)) if alg == "arnoldi" else 0
+    d = [v for v in vals for _ in range(6)] + [-float(g.choice(mags))] * kneg
+    d += [float(g.choice(vals)) for _ in range(n - len(d))]
+    d = np.array(d)[g.permutation(n)]
+    A = (Q * d) @ Q.T
+    A = (A + A.T) / 2
+    return A, d, math.fsum(math.log(abs(x)) for x in d), (-1.0) ** kneg
+
+
+def run_large_leaf(case):
+    """-> (status, detail, record).  real: slogdet / logdet of a matmul-defined (no_dispatch) operator of size n > 100 through
+    Lanczos | Arnoldi(max_iters = n, tol = LARGE_KRYLOV_TOL) and the EXACT trace: `exact_diag` probes with chunks of 100 identity columns,
+    so n = 101, 130, 199, 257 exercise a short last chunk and n = 200 two full ones."""
+    import cola
+    from cola.ops import Dense
+    n, alg = int(case["n"]), case["la"]
+    A_np, d, ref, sgn = large_leaf_matrix(n, int(case["gen_seed"]), alg)
+    rec = {"n": n, "la": alg, "expected_logabs": ref, "expected_sign": sgn, "distinct_eigenvalues": len(set(d.tolist()))}
+    try:
+        G = cola.fns.no_dispatch(Dense(A_np))
+        if alg == "lanczos":
+            G = cola.SelfAdjoint(G)
+        sign, logabs = cola.linalg.slogdet(G, make_alg(alg, n, LARGE_KRYLOV_TOL), make_alg("exact", n))
+        ld = cola.linalg.logdet(G, make_alg(alg, n, LARGE_KRYLOV_TOL), make_alg("exact", n))
+    except BaseException as ex:  # noqa: BLE001
+        if isinstance(ex, KeyboardInterrupt):
+            raise
+        return "violation", f"raised {err_class(ex)}: {str(ex)[:200]}", rec
+    s = complex(np.asarray(sign).reshape(()).astype(np.complex128))
+    la_, ld_ = float(np.real(np.asarray(logabs).reshape(()))), float(np.real(np.asarray(ld).reshape(())))
+    rec.update({"sign": [s.real, s.imag], "logabs": la_, "logdet": ld_})
+    if not (math.isfinite(la_) and math.isfinite(s.real) and math.isfinite(s.imag)):
+        return "violation", f"(sign, logabs) = ({s!r}, {la_!r}) is not finite; log|det| = {ref!r}", rec
+    if abs(la_ - ref) > LARGE_LOGABS_TOL * n:
+        return "violation", f"logabs = {la_!r}, log|det| = sum log|d| = {ref!r} (n = {n})", rec
+    if abs(s - sgn) > LARGE_SIGN_TOL:
+        return "violation", f"sign = {s!r}, det/|det| = {sgn!r}", rec
+    if abs(ld_ - la_) > 1e-9 * max(1.0, abs(la_)):
+        return "violation", f"logdet = {ld_!r} differs from slogdet[1] = {la_!r}", rec
+    return "ok", "", rec
+
+
+def large_leaf_cases(rng, big):
+    out = []
+    for n in ([101, 130] if not big else [101, 130, 199, 200, 257]):
+        for alg in ("lanczos", "arnoldi"):
+            out.append({"op": None, "stream": "large-leaf", "n": n, "la": alg, "ta": "exact", "gen_seed": rng.randrange(1 << 30)})
+    return out
+
+
 # ------------------------------------------------------------------ shrinking
 def square_subtrees(e):
     out = []
@@ -700,7 +865,18 @@ def square_subtrees(e):
 def run(ctx):
     gate, gate_err = None, None
     try:
-        gate = common.lean_gate(ctx, MODULE)
+        gate = dict(common.lean_gate(ctx, MODULE))
+        checked = [MODULE]
+        for mod in SUBMODULES:          # round 5: the property sub-files are gated like the main module (build, #print axioms audit, source scan)
+            g = common.lean_gate(ctx, mod)
+            gate["obligations"] += g["obligations"]
+            gate["discharged"] += g["discharged"]
+            gate["theorems"] = sorted(set(gate["theorems"]) | set(g["theorems"]))
+            checked.append(mod)
+        gate["modules"] = checked
+        gate["checker_cmd"] = "cd lean && lake build " + " ".join(checked) + " && " + " && ".join(
+            "lake env lean " + os.path.join("ColaVerif", *m.split(".")[1:]) + ".lean" for m in checked) + \
+            (" && " + " && ".join("lake env leanchecker " + m for m in checked) if ctx.thorough else "") + "   # kernel re-check + #print axioms audit"
     except common.LeanGateError as ex:
         gate_err = str(ex)
     rng = random.Random(ctx.seed * 15485863 + 7)
@@ -708,7 +884,7 @@ def run(ctx):
     for k, v in common.known_clauses(ctx.prop).items():
         known[k] = v.get("what", "")
     stats = collections.Counter()
-    dist = {k: collections.Counter() for k in ("log_alg", "trace_alg", "kinds", "base_kinds", "size", "det_class", "dtype", "stream")}
+    dist = {k: collections.Counter() for k in ("log_alg", "trace_alg", "kinds", "base_kinds", "size", "det_class", "dtype", "stream", "singular_how")}
     distinct, samples = set(), []
     maxerr = collections.defaultdict(float)
 
@@ -737,9 +913,68 @@ def run(ctx):
         for c in cases:
             a = ans.get(keyof[c["id"]], {"error": "no answer"})
             real = run_real(c)
-            st, det = (classify_range if c.get("stream") == "range" else classify)(c, a, real)
+            st, det = CLASSIFIERS.get(c.get("stream"), classify)(c, a, real)
+            if st == "known":
+                st, det = audit_factors(c, a, real, det)
             out.append((c, a, real, st, det))
         return out
+
+    CLASSIFIERS = {"range": classify_range, "singular": classify_singular, "kernel-tie": classify_tie}
+
+    def audit_factors(c, a, real, clauses):
+        """round 5 (ix): PER-FACTOR excuse.  `classify` answered `known`: somewhere in the tree a base leaf meets a clause predicate of
+        the driver and the real result is nan / LinAlgError / off the determinant.  The excuse covers only THAT factor: the tree is
+        split into the factors of the structural rules, each factor is evaluated on its own (same log_alg / trace_alg, the Krylov cap of
+        the whole call -- the same computation as inside the tree) and classified by the normal three-way comparison.  A factor is
+        excused iff the driver attributes a clause to it (code model err in KERNEL_OUTCOMES on the factor alone); every other factor
+        must pass; at least one factor must be excused."""
+        try:
+            facs = rule_factors(c["op"])
+        except Exception as ex:  # noqa: BLE001
+            return "violation", f"known outcome but the tree could not be split into factors: {ex!r}"
+        merged = {}
+        for f, k in facs:
+            key = common.canon(f)
+            merged.setdefault(key, [f, 0])
+            merged[key][1] += k
+        fl = list(merged.values())
+        if len(fl) == 1 and common.canon(fl[0][0]) == common.canon(c["op"]):
+            stats["known-single-factor"] += 1
+            return "known", clauses
+        cap = int(c.get("cap") or a.get("rows") or 0) or None
+        extra = {"tol0": True} if c.get("tol0") else {}
+        subs = [dict({"op": f, "la": c.get("la"), "ta": c.get("ta"), "stream": str(c.get("stream", "?")) + "/factor", "cap": cap}, **extra) for f, _ in fl]
+        res = evaluate(subs)
+        excused, ex_clauses, expected = 0, [], complex(1.0)
+        for (sc, sa, sr, sst, sdet), (f, k) in zip(res, fl):
+            code_err = sa.get("code", {}).get("err") if "error" not in sa else None
+            if code_err in KERNEL_OUTCOMES and sst in ("known", "ok-spec-only"):
+                excused += 1
+                stats["factors-excused"] += 1
+                ex_clauses.append(KERNEL_OUTCOMES[code_err])
+                v = None if "err" in sr else real_value(sr)
+                expected = None if (v is None or expected is None) else expected * v ** k
+            elif sst in ("ok", "ok-spec-only", "domain", "precondition"):
+                stats["factors-compared"] += 1
+                if expected is not None and sa.get("spec") is not None and "err" not in sr:
+                    expected = expected * exact_z(sa["spec"]) ** k
+                else:
+                    expected = None
+            else:
+                stats["factors-not-excused"] += 1
+                return "violation", (f"factor NOT covered by the recorded clause {clauses}: status {sst} ({sdet}) on the factor evaluated alone; "
+                                     f"factor_case = {json.dumps(strip(sc))[:1500]}; real = {json.dumps(sr)[:300]}")
+        if excused == 0:
+            return "violation", f"known outcome {clauses} but no factor of the tree meets the clause predicate when evaluated alone"
+        # observation only (not a verdict): the whole result is the rules' combination of the factors' own results
+        v = None if "err" in real else real_value(real)
+        if v is not None and expected is not None and math.isfinite(abs(expected)):
+            tot = sum(k for _, k in fl)
+            ok = abs(v - expected) <= 1e-6 * (1 + tot) * max(abs(expected), 1e-300)
+            stats["recombination-consistent" if ok else "recombination-off"] += 1
+            if not ok:
+                ctx.notes.append(f"recombination: whole = {v!r}, product of the factors' own results = {expected!r}")
+        return "known", sorted(set(ex_clauses))
 
     def shrink(case):
         cur = case
@@ -791,7 +1026,11 @@ def run(ctx):
             nontrivial = len(gen.subexprs(c["op"])) > 1 or c["op"][0] not in ("eye",)
             if nontrivial:
                 distinct.add(common.canon([c["op"], c.get("la"), c.get("ta")]))
-        if st == "ok" and "ok" in a.get("code", {}) and c.get("stream") != "range":
+        if c.get("stream") == "singular":
+            dist["singular_how"][str(c.get("how")) + " -> " + (str((a.get("ieee") or {}).get("ok") or (a.get("ieee") or {}).get("err")))] += 1
+        if st == "ok" and c.get("stream") == "kernel-tie":
+            stats["kernel-tie-three-way"] += 1
+        if st == "ok" and "ok" in a.get("code", {}) and c.get("stream") not in ("range", "singular"):
             v = real_value(real)
             z = exact_z(a["spec"])
             key = path_of(c, a) + "/" + ("s" if any(prec(d) == "s" for d in leaf_dtypes(c["op"])) else "d")
@@ -823,15 +1062,43 @@ def run(ctx):
             stats["violations-not-listed"] += 1
         elif st == "stale-model":
             common.violation(ctx, {"case": strip(c), "model": a.get("code"), "spec": a.get("spec"), "real": real, "detail": det,
-                                   "broken": "correspondence between logdet.py and the Lean rule model (Model/LogDet.lean)"}, no_input=True)
+                                   "broken": "correspondence between logdet.py and the Lean rule model (Model/LogDet.lean, Model/LogDetSing.lean)"}, no_input=True)
         elif st == "driver-error":
             stats["driver-error"] += 0
             ctx.notes.append(f"driver: {det}")
 
     def strip(c):
-        return {k: c.get(k) for k in ("op", "la", "ta", "stream")}
+        d = {k: c.get(k) for k in ("op", "la", "ta", "stream")}
+        d.update({k: c[k] for k in ("cap", "tol0") if c.get(k)})
+        return d
 
-    if ctx.replay:
+    large = {"ok": 0, "violation": 0, "records": [], "max_abs_logabs_error": 0.0, "max_sign_error": 0.0}
+
+    def do_large(c):
+        st, det, rec = run_large_leaf(c)
+        stats["evaluations"] += 1
+        stats[st] += 1
+        dist["stream"]["large-leaf"] += 1
+        dist["log_alg"][str(c.get("la"))] += 1
+        dist["trace_alg"]["exact"] += 1
+        large[st] = large.get(st, 0) + 1
+        large["records"].append(rec)
+        if st == "ok":
+            distinct.add(common.canon(["large-leaf", c["n"], c["la"], c["gen_seed"]]))
+            large["max_abs_logabs_error"] = max(large["max_abs_logabs_error"], abs(rec["logabs"] - rec["expected_logabs"]))
+            large["max_sign_error"] = max(large["max_sign_error"], abs(complex(*rec["sign"]) - rec["expected_sign"]))
+        else:
+            common.violation(ctx, {"case": {k: c.get(k) for k in ("stream", "n", "la", "ta", "gen_seed")}, "detail": det, "real": rec,
+                                   "expected_logabs": rec["expected_logabs"], "expected_sign": rec["expected_sign"],
+                                   "call": "A, d, *_ = props.c07.large_leaf_matrix(n, gen_seed, la); cola.linalg.slogdet(no_dispatch(Dense(A)) [SelfAdjoint for lanczos], "
+                                           "Lanczos|Arnoldi(max_iters=n, tol=1e-8), Exact())"})
+        return st, det, rec
+
+    if ctx.replay and (json.load(open(ctx.replay)).get("case") or {}).get("stream") == "large-leaf":
+        c = json.load(open(ctx.replay))["case"]
+        st, det, rec = do_large(c)
+        print(json.dumps({"replayed": c, "status": st, "detail": det, "real": rec})[:3000])
+    elif ctx.replay:
         rp = json.load(open(ctx.replay))
         c = rp.get("case") or rp.get("original_case")
         res = evaluate([dict(c)])
@@ -841,9 +1108,12 @@ def run(ctx):
                           "model": res[0][1].get("code"), "spec": res[0][1].get("spec")})[:3000])
     else:
         cases = build_cases(ctx, rng)
+        lcases = large_leaf_cases(rng, ctx.thorough)
         for i in range(0, len(cases), 400):
             for r in evaluate(cases[i:i + 400]):
                 account(*r)
+        for c in lcases:
+            do_large(c)
     if stats["driver-error"]:
         common.violation(ctx, {"broken": "DriverC07 answered with errors", "notes": ctx.notes[:5]}, no_input=True)
     if gate_err is not None and not ctx.violations:
@@ -861,12 +1131,30 @@ def run(ctx):
                 "trees of all other kinds as base-case leaves) x (log_alg, trace_alg); distinct = canonical JSON of (tree, log_alg, "
                 "trace_alg); non-trivial = not a bare Identity; stream `range`: Diagonal (400-520 entries of magnitude 0.1-0.3 or 5-30 in double, "
                 "60-90 in single precision), the same inside Kronecker(., I_r) / BlockDiag with multiplicities / under a PSD declaration, ScalarMul of "
-                "that size, Triangular 60-80 (single precision): |log det| is 90 ... 1500, the determinant itself is not a floating point number",
+                "that size, Triangular 60-80 (single precision): |log det| is 90 ... 1500, the determinant itself is not a floating point number; stream `singular`: the direct generator's "
+                "trees (no exotic leaves) with ONE leaf made singular (zero Diagonal / Triangular-diagonal entry, ScalarMul 0, zero row / column of an LU leaf, zero row+column of a PSD leaf) + 7 fixed; "
+                "stream `kernel-tie`: SelfAdjoint(dense Hermitian PD / indefinite n <= 6), Lanczos(cap in n..n+3, tol = 0), Exact(); stream `large-leaf`: no_dispatch(Dense(Q diag(d) Q^T)), "
+                "n in {101, 130} (thorough + 199, 200, 257), d dyadic with few distinct values, Lanczos (SPD) and Arnoldi (3-5 negative entries) with the exact trace",
         "compare": "code model (exact claimedDet over Q[i]) == exact determinant of den; real sign*exp(logabs) within the relative "
                    "tolerance of either; |sign| = 1; sign = +-1 for real operators; logdet == slogdet[1]; |det| < 1 => logabs < 0; "
                    "logabs == log|det| (2 x the same tolerance, absolute on the logarithm, scaled by max(1, |log|det||)); stream `range`: "
                    "logabs == log|det| and sign == det/|det| against the EXACT determinant (big-integer logarithm), finite results required",
         "provisional_known": PROVISIONAL_KNOWN,
+        "large_leaf": {k: v for k, v in large.items()},
+        "round5": {
+            "per_factor_excuse": {k: stats[k] for k in ("known", "known-single-factor", "factors-excused", "factors-compared", "factors-not-excused",
+                                                        "recombination-consistent", "recombination-off")},
+            "per_factor_rule": "a `known` outcome excuses only the factors (split by the structural rules, `rule_factors`) on which the driver's clause predicate "
+                               "holds when the factor is evaluated alone with the options of the whole call; every other factor goes through the normal comparison "
+                               "(factors-compared); a factor that fails is a violation although the tree contains an excused leaf",
+            "singular": {"outcomes_by_poisoned_leaf": dict(dist["singular_how"]),
+                         "compare": "det = 0: real raises nothing, logabs == -inf, logdet == -inf, sign is nan == the model's IEEE outcome `sing` (Model/LogDetSing.lean; "
+                                    "C07_singular_structural / _iff / _outcome); Cholesky rule: LinAlgError == the kernel's exception (domain); exact claimedDet == det == 0"},
+            "kernel_tie": {"three_way_ok": stats["kernel-tie-three-way"],
+                           "compare": "Lanczos(max_iters = cap >= n, tol = 0), Exact(), one Hermitian non-singular base leaf: real exp(tr log A) within the Krylov tolerance of "
+                                      "the driver's trlogK value, trlogK == det(den A) EXACTLY, det(den A) = exp of every answer of the theorem-side kernel Op.lanczosKernels "
+                                      "(C07_lanczos_kernel_value; its hypotheses square / Hermitian / det != 0 / 1 <= n <= cap are decided by the driver on the case)"},
+        },
     }
     common.write_evidence(ctx, gate, cov, assumptions=[
         "numerical kernels: LAPACK cholesky and scipy lu are parameters with contracts (L L^H = A, L lower; A = L[p] U), hypotheses of the theorems, "
@@ -887,6 +1175,18 @@ def run(ctx):
         "stream `range`: IEEE range behaviour (under/overflow of a product) is outside the exact model; the stream compares the real logabs / sign with the "
         "exact determinant's logarithm / phase, so a rule that forms the product before the logarithm is seen although code model == spec there",
         "Triangular operators are triangular (constructor promise); declared annotations are true",
+        "stream `large-leaf` is ORACLE ONLY (no Lean model behind it: the entries of Q diag(d) Q^T are floats, the exact driver is not used): matmul-defined operators of size "
+        "101 / 130 (thorough: 199, 200, 257) with 5-8 distinct dyadic eigenvalues of multiplicity >= 6 (Krylov grade <= 8 for every identity probe), slogdet through "
+        "Lanczos | Arnoldi(max_iters = n, tol = 1e-8) and Exact(): the trace of log A goes through exact_diag's chunks of 100 probes (a short last chunk); compared: "
+        "|logabs - sum log|d|| <= 1e-6 n, |sign - (-1)^(#negative)| <= 1e-6, logdet == slogdet[1]; full-length runs (n distinct eigenvalues, max_iters = n) are NOT "
+        "claimed: Arnoldi's single-pass Gram-Schmidt loses orthogonality there (observed: NaN at n = 100, flaky at n = 101 with a symmetric indefinite matrix of 100 distinct eigenvalues); "
+        "tol = 1e-12 is NOT used at this size: the residual at Krylov closure is ~1e-11 |A| for Arnoldi, the loop misses the closure and returns NaN (observed 2 / 18, unchanged tree)",
+        "round 5, singular inputs: the IEEE behaviour 0/0 = nan, log 0 = -inf, nan * x = nan, -inf + finite = -inf, nan ** k = nan and -inf * k = -inf for k >= 1 is ABSTRACTED by the "
+        "three-valued instance ieeeOps (fin | sing | junk) of the same rule recursion, not derived from a float model; it is tied to the real code by the stream `singular`; the sign of a "
+        "singular operator is nan in cola (NumPy's slogdet returns 0): recorded as what the code does, the property defines no phase for det = 0; the Krylov path on singular operators "
+        "(real: (nan, nan)) is modelled as `junk` and not compared",
+        "round 5, kernel tie: Op.lanczosKernels (theorem side) is not executable (Complex.log, eigh); the tie to the driver's trlogK is through the VALUE: the theorem gives exp(answer) = det(den A) "
+        "under hypotheses the driver decides exactly, the driver's kernel value is compared exactly with det(den A), the real kernel by tolerance -- no Lean lemma relates the two recurrences step by step",
         "IEEE rounding is outside the model: the real result is compared with relative tolerance " + json.dumps({f"{k[0]}/{k[1]}": v for k, v in TOL.items()}),
     ])
     print(json.dumps({"outcomes": dict(stats), "distinct_nontrivial": len(distinct), "gate": (gate or {}).get("obligations"),
@@ -947,7 +1247,95 @@ def build_cases(ctx, rng):
             t = ["kron", t, G.leaf_struct(rng.choice([1, 2]))]
         cases.append({"op": t, "la": rng.choice([None, "lu"]), "ta": None, "stream": "precondition"})
     cases += range_cases(rng, 10 if not big else 80)
+    cases += singular_cases(rng, max(1, int((40 if not big else 500) * scale)), max_n)
+    cases += tie_cases(rng, max(1, int((24 if not big else 300) * scale)))
     return cases
+
+
+def poison(G, rng, e):
+    """make ONE leaf of a non-singular tree singular -> (tree, what) or None: a zero entry in a Diagonal / on the diagonal of a Triangular,
+    ScalarMul 0, a zero row or column in a dense LU leaf (the zero pivot of U is then EXACT in floating point), a zero row AND column in a
+    dense leaf declared PSD (still Hermitian positive SEMI-definite: Cholesky raises)"""
+    leaves = []
+
+    def walk(x, path, under_psd):
+        t = x[0]
+        if t == "ann":
+            walk(x[2], path + [2], under_psd or x[1] == "PSD")
+        elif t in ("prod", "kron"):
+            for i in range(1, len(x)):
+                walk(x[i], path + [i], False)
+        elif t == "bdiag":
+            for i in range(len(x[1])):
+                walk(x[1][i], path + [1, i], False)
+        elif t in ("diag", "scalar", "tri", "dense"):
+            leaves.append((path, t, under_psd))
+    walk(e, [], False)
+    if not leaves:
+        return None
+    path, t, under_psd = rng.choice(leaves)
+    out = json.loads(json.dumps(e))
+    x = out
+    for i in path:
+        x = x[i]
+    if t == "diag":
+        x[2][rng.randrange(len(x[2]))] = 0
+    elif t == "scalar":
+        x[2] = 0
+    elif t == "tri":
+        j = rng.randrange(x[2])
+        x[5][j][j] = 0
+    else:
+        n = x[2]
+        j = rng.randrange(n)
+        how = "both" if under_psd else rng.choice(["row", "col"])
+        for i in range(n):
+            if how in ("row", "both"):
+                x[4][j][i] = 0
+            if how in ("col", "both"):
+                x[4][i][j] = 0
+        t = "dense/" + how + ("/psd" if under_psd else "")
+    return out, t
+
+
+def singular_cases(rng, count, max_n):
+    """stream `singular` (round 5, viii): det = 0 reached through every structural rule (Diagonal, ScalarMul, Triangular inside Product /
+    Kronecker / BlockDiag with multiplicities / declaration wrappers), through the LU rule (zero row / column) and the Cholesky rule"""
+    out = []
+    G = DetGen(rng, basepd=False, exotic=False, max_n=min(max_n, 8), dtypes=["f64", "f64", "c128", "f32", "c64"])
+    fixed = [["diag", "f64", [2, 0, 3]], ["scalar", "c128", 0, 3], ["tri", "f64", 2, 2, True, [[1, 0], [2, 0]]],
+             ["kron", ["diag", "f64", [2, 0, 3]], ["perm", "f64", [1, 0]]],
+             ["bdiag", [["diag", "f32", [0, 1]], ["dense", "f64", 2, 2, [[1, 2], [3, 4]]]], [2, 1]],
+             ["prod", ["diag", "f64", [2, -1]], ["dense", "f64", 2, 2, [[1, 2], [0, 0]]]],
+             ["ann", "PSD", ["dense", "f64", 2, 2, [[1, 0], [0, 0]]]]]
+    for t in fixed:
+        for la in (None, "lu"):
+            out.append({"op": t, "la": la, "ta": None, "stream": "singular", "how": "fixed"})
+    tries = 0
+    while len(out) < len(fixed) * 2 + count and tries < 20 * count:
+        tries += 1
+        t = G.node(G.size(), rng.choice([0, 1, 1, 2, 2]))
+        pz = poison(G, rng, t)
+        if pz is None:
+            continue
+        out.append({"op": pz[0], "la": rng.choice([None, None, "auto", "lu"]), "ta": rng.choice(TAS), "stream": "singular", "how": pz[1]})
+    return out
+
+
+def tie_cases(rng, count):
+    """stream `kernel-tie` (round 5, i): ONE base leaf = a Hermitian non-singular dense matrix declared SelfAdjoint / PSD, log_alg =
+    Lanczos(max_iters = cap >= n, tol = 0), trace_alg = Exact(): the inputs of `C07_lanczos_kernel_answers` / `_value`"""
+    out = []
+    G = DetGen(rng, basepd=True, exotic=False, max_n=6, dtypes=["f64", "c128"])
+    for _ in range(count):
+        n = rng.choice([1, 2, 2, 3, 3, 4, 5, 6])
+        dt = G.dt(n)
+        M = G.herm_indef_mat(dt, n) if rng.random() < 0.3 else G.pd_mat(dt, n)
+        if G.cond_of(M) > 1e4:
+            M = G.pd_mat(dt, n)
+        t = ["ann", "SelfAdjoint", ["dense", dt, n, n, mat_json(M)]]
+        out.append({"op": t, "la": "lanczos", "ta": "exact", "stream": "kernel-tie", "tol0": True, "cap": max(2, n + rng.choice([0, 0, 1, 3]))})
+    return out
 
 
 def range_cases(rng, count):
